@@ -47,6 +47,8 @@ def specEnforce (md : ModelDef) (policy grouping : String → List Rule)
   else
     let ρ : Env := { r := rvals, p := [], fn := fn, link := specLink md grouping 10, evalTab := evalTab }
     let pol := policy ctx.pType
+    -- "eval() with no rule at all" is left unspecified: the implementation reports an error by contract
+    if m.hasEval && pol.isEmpty then none else
     if m.mentionsP then
       -- the literal reading: every stored rule is a candidate; no rule, no match
       let cells ← pol.mapM (evalRule ρ m tokens)
